@@ -7,13 +7,14 @@
 #include "vh.h"
 
 #define NOW 1700000000L
-#define NOPS 31
+#define NOPS 33
 static const char *OPNAME[NOPS] = { "claim_del(exp)", "claim_del(nbf)", "claim_del(iss)", "claim_del(sub)", "claim_del(aud)", "claim_del(all)",
 	"claim_set!(exp=9999999999)", "claim_set!(nbf=0)", "claim_set!(iss=me)", "claim_set!(sub=s)", "claim_set!(aud=x)",
 	"header_del(alg)", "header_del(all)", "header_set!(alg=none)", "header_set!(alg=HS256)", "header_set!(alg=ES256)", "claim_set!(exp='str')", "noop",
 	"claim_get(exp as STR)", "claim_get(iss as INT, aud as BOOL)", "header_get(alg as INT, typ as BOOL)", "get(absent names)", "get(JSON whole, pretty)", "get(right types), jwt_get_alg",
 	"header_del(crit)", "header_set!(crit=[exp])", "header_del(typ), header_del(kid)", "header_set!(typ=x, kid=k, cty=c)", "header_set!(crit=7, jwk={}, x5c=[])",
-	"claim_set!(exp=1000000000)", "claim_set!(iss=yo)" };
+	"claim_set!(exp=1000000000)", "claim_set!(iss=yo)",
+	"claim_set!(exp=not-UTF-8 string)", "claim_set!(iss=not-UTF-8 string), header_set!(alg=not-UTF-8 string)" };
 
 static void apply_op(jwt_t *jwt, int op)
 {
@@ -58,6 +59,10 @@ static void apply_op(jwt_t *jwt, int op)
 	/* edits that keep the length of the serialised claims */
 	case 29: jwt_set_SET_INT(&v, "exp", 1000000000L); v.replace = 1; jwt_claim_set(jwt, &v); break;
 	case 30: jwt_set_SET_STR(&v, "iss", "yo"); v.replace = 1; jwt_claim_set(jwt, &v); break;
+	/* replacements the library refuses (the value is not UTF-8): a refused edit is still an edit attempt on the handed jwt_t */
+	case 31: jwt_set_SET_STR(&v, "exp", "\xff\xfe"); v.replace = 1; jwt_claim_set(jwt, &v); break;
+	case 32: jwt_set_SET_STR(&v, "iss", "caf\xe9"); v.replace = 1; jwt_claim_set(jwt, &v);
+		 jwt_set_SET_STR(&v, "alg", "\xc3"); v.replace = 1; jwt_header_set(jwt, &v); break;
 	default: break;
 	}
 }
